@@ -759,7 +759,7 @@ def get_cascade_data(data, framework, cascade, pops=None, year=None):
     for stage_name, stage_constituents in cascade_dict.items():
         for code_name in stage_constituents:
             if stage_name not in cascade_data:
-                cascade_data[stage_name] = data_values[code_name]
+                cascade_data[stage_name] = data_values[code_name].copy()  # Copy, because the array is added to in-place below and may be shared with other stages
             else:
                 cascade_data[stage_name] += data_values[code_name]
 
